@@ -410,9 +410,12 @@ SyncedExactlyAtSync ==
         /\ HasCb(lastAct.h, "synced") <=> lastAct.k = "synced"
 \* ... and sees the state of that moment
 SyncedSeesState ==
-    (lastAct.k = "synced" /\ lastAct.legal /\ cf.kind = "map") =>
-        /\ lastAct.c.cbs = <<Cb("synced", 0, 0, 0, MapSeq(c))>>
-        /\ lastAct.h.cbs = <<Cb("synced", 0, 0, 0, MapSeq(h))>>
+    /\ (lastAct.k = "synced" /\ lastAct.legal /\ cf.kind = "map") =>
+            /\ lastAct.c.cbs = <<Cb("synced", 0, 0, 0, MapSeq(c))>>
+            /\ lastAct.h.cbs = <<Cb("synced", 0, 0, 0, MapSeq(h))>>
+    /\ (lastAct.k = "synced" /\ lastAct.legal /\ cf.kind = "value") =>
+            /\ c # None /\ lastAct.c.cbs = <<Cb("synced", 0, 0, c, <<>>)>>
+            /\ h # None /\ lastAct.h.cbs = <<Cb("synced", 0, 0, h, <<>>)>>
 \* no event callbacks while not synced unless events_when_not_synced
 QuietWhenNotSynced ==
     (lastAct.k \in EventKinds /\ lastAct.legal /\ st = "L" /\ ~cf.ewns /\ cf.kind # "event") =>
